@@ -336,6 +336,27 @@ func checkResetTearsDownBeforeServerLock(c *report.Ctx) {
 				pos = an.InstrPos(r)
 			}
 		}
+		// the goroutine that performs the reset starts after whatever its creator did first: an acquisition in the
+		// enclosing function(s) before the closure is made precedes the hand-over just the same
+		for child, par := g, g.Parent(); par != nil; child, par = par, par.Parent() {
+			pord := an.NewOrder(par, func(in ssa.Instruction) uint64 {
+				if call, ok := in.(ssa.CallInstruction); ok && lockers[an.Callee(call)] {
+					return 1
+				}
+				if o := an.LockOps1(in); o.Acquire && strings.HasSuffix(o.Path, ".mutex") {
+					return 1
+				}
+				return 0
+			})
+			an.AllInstrs(par, func(in ssa.Instruction) {
+				if mc, ok := in.(*ssa.MakeClosure); ok && mc.Fn == ssa.Value(child) {
+					if _, may := pord.Before(mc); may&1 != 0 {
+						bad = append(bad, an.FuncName(par))
+						pos = an.InstrPos(mc)
+					}
+				}
+			})
+		}
 	}
 	c.Check("R-ORDER", an.FuncName(f)+"/teardown-before-server-mutex", "the reset hands over to the sandbox (which terminates the processes) before anything that takes the server mutex: a reply sink stalled on the runtime's body holds that mutex until the runtime is gone", len(bad) == 0 && n == 1 && len(lockers) >= 5, pos, n, "sandbox reset sites: %d; preceded by an acquisition of the server mutex in: %v (methods taking it: %d)", n, bad, len(lockers))
 }
